@@ -10,6 +10,7 @@ func allChecks() []*Check {
 			ID: "C02", Title: "No input from the server can crash the client",
 			Harnesses: []Harness{
 				{Pkg: "client", Func: "VerifC02Parse", Quick: map[string]int{"L": 6}, Thorough: map[string]int{"L": 9}},
+				{Pkg: "client", Func: "VerifC02Prefixed", Quick: map[string]int{"L": 4}, Thorough: map[string]int{"L": 7}},
 			},
 			Bounds:      map[string]string{"quick": "every ASCII byte string of length <= 6", "thorough": "every ASCII byte string of length <= 9"},
 			Outside:     []string{"bytes >= 0x80", "longer lines"},
